@@ -424,6 +424,51 @@ var Injectors = []injector{
 		}
 		return &Fault{Class: "undefined:macro", Msg: []string{"macro not found"}, DirID: nd.ID}
 	}},
+	{"second-tags-directive", func(r Rnd, tree *[]*Dir, ids *int) *Fault {
+		// a method may carry several Tags directives (the first one counts, all are validated): the fault sits in a later one
+		cands, _ := collect(*tree, func(d, p *Dir) bool {
+			if !isMethodKw(d.Kw) && d.Kw != "Method" {
+				return false
+			}
+			for _, k := range d.Children {
+				if k.Kw == "Tags" {
+					return true
+				}
+			}
+			return false
+		})
+		if len(cands) == 0 {
+			return nil
+		}
+		m := pick(r, cands)
+		var first *Dir
+		at := 0
+		for i, k := range m.Children {
+			if k.Kw == "Tags" {
+				first, at = k, i
+				break
+			}
+		}
+		*ids++
+		nd := &Dir{ID: *ids, Kw: "Tags", Params: append([]Param(nil), first.Params...)}
+		f := &Fault{DirID: nd.ID}
+		switch r.Intn(3) {
+		case 0:
+			nd.Params = []Param{bare("@undefinedTag")}
+			f.Class, f.Msg = "undefined:tag", []string{"tag not found"}
+		case 1:
+			nd.Annot = "forbidden note"
+			f.Class, f.Msg = "annotation:Tags", []string{"the annotation is not allowed for this directive"}
+		default:
+			nd.Params = nil
+			f.Class, f.Msg = "missing-parameter:Tags", []string{msgReqParam}
+		}
+		// right after the first Tags directive (both are leaves: no context question arises)
+		nl := append([]*Dir(nil), m.Children[:at+1]...)
+		nl = append(nl, nd)
+		m.Children = append(nl, m.Children[at+1:]...)
+		return f
+	}},
 	dropParams("SERVER", msgReqParam),
 	{"missing-parameter:TYPE", func(r Rnd, tree *[]*Dir, ids *int) *Fault {
 		// only jsight types written without an explicit notation: the name is their only parameter
@@ -690,4 +735,44 @@ func PasteSites(tree []*Dir, id int) []int {
 		}
 	})
 	return out
+}
+
+// ScanInjectors plant faults that the core notices while it scans (a superfluous parameter, a parameter given twice, an
+// annotation where the scanner already refuses it).  They are not among the fault classes of C03; C09 uses them because
+// these errors are located through the file that is being scanned, which changes at every INCLUDE.
+var ScanInjectors = []injector{
+	{"extra-parameter", func(r Rnd, tree *[]*Dir, ids *int) *Fault {
+		cands, _ := collect(*tree, func(d, p *Dir) bool {
+			switch d.Kw {
+			case "TAG", "Version", "Title", "BaseUrl", "Protocol", "OperationId", "SERVER", "ENUM", "Method":
+				return len(d.Params) == 1
+			}
+			return false
+		})
+		if len(cands) == 0 {
+			return nil
+		}
+		d := pick(r, cands)
+		d.Params = append(append([]Param(nil), d.Params...), bare("superfluous"))
+		return &Fault{Class: "extra-parameter:" + d.Kw, Msg: []string{"incorrect parameter"}, DirID: d.ID}
+	}},
+	{"extra-parameter-root-method", func(r Rnd, tree *[]*Dir, ids *int) *Fault {
+		cands, _ := collect(*tree, func(d, p *Dir) bool { return (isMethodKw(d.Kw) || d.Kw == "URL") && len(d.Params) == 1 })
+		if len(cands) == 0 {
+			return nil
+		}
+		d := pick(r, cands)
+		d.Params = append(append([]Param(nil), d.Params...), bare("/second/path"))
+		return &Fault{Class: "extra-parameter:" + d.Kw, Msg: []string{"already defined", "incorrect parameter"}, DirID: d.ID}
+	}},
+}
+
+func InjectScan(r Rnd, tree []*Dir, which int) ([]*Dir, *Fault) {
+	t := CloneTree(tree)
+	ids := 500000
+	f := ScanInjectors[which%len(ScanInjectors)].apply(r, &t, &ids)
+	if f == nil {
+		return nil, nil
+	}
+	return t, f
 }
